@@ -178,6 +178,13 @@ impl VM {
                         .consume_gas(instruction.min_gas_cost());
                 }
                 Err(payload) => {
+                    // A request to stop ends the whole execution rather than just this thread, as
+                    // every other thread would only be told to stop again
+                    if payload.payload == Error::StoppedByWatchdog {
+                        self.errors.add(payload);
+                        return Err(self.errors.clone());
+                    }
+
                     // If execution errored and we are not in permissive error mode, add the error
                     // to the collection of them and then kill the current
                     // thread to continue. If we are in permissive error mode we
